@@ -281,15 +281,14 @@ impl Prop for SrcProp {
 
     fn gen_cases(&self, tier: Tier) -> u64 {
         let q = match self.which {
-            Which::C12 => 12_000,
-            Which::C13 => 40_000,
-            Which::C07 => 40_000,
-            Which::C01 => 60_000,
-            _ => 60_000,
+            Which::C12 => 40_000,
+            Which::C13 => 120_000,
+            Which::C07 => 120_000,
+            _ => 200_000,
         };
         match tier {
             Tier::Quick => q,
-            Tier::Thorough => q * 25,
+            Tier::Thorough => q * 15,
         }
     }
 
